@@ -99,6 +99,20 @@ func verifHeapPop() *tssItem         { return heap.Pop(&tssQ).(*tssItem) }
 func verifHeapFix(i int)             { heap.Fix(&tssQ, i) }
 func verifHeapRemove(i int) *tssItem { return heap.Remove(&tssQ, i).(*tssItem) }
 
+// Lemma (C07): in a heap-ordered queue no entry ranks before the root, i.e. the root is a least recently active
+// client. Proved by induction along the parent chain: the recursive call is the induction hypothesis for the parent
+// (i-1)/2, the measure i decreases, and heap order gives the step from the parent to i.
+func verifHeapRootMin(i int) {
+	if i > 0 {
+		verifHeapRootMin((i - 1) / 2)
+	}
+}
+
+//@ func verifHeapRootMin
+//@   requires queueIdx() && heapOrd() && 0 <= i && i < len(tssQ)
+//@   decreases i
+//@   ensures rootmin: !tssQ[i].qval.Before(tssQ[0].qval)
+
 // ---- request handling ----
 
 //@ pred interleaved(c, q) = (q.ReceiveTime != q.TransmitTime && old(inmap(tss, c)) && exists(j, 0, old(tss[c].len), old(tss[c].buf[j].rxt) == q.OriginTime))
